@@ -78,6 +78,9 @@ ALLOWED_SUBST = {
     "iter_map_collect": (r"(\w+)\.iter\(\)\.map\((\|.*)\)\.collect\(\)", r"iter_map_collect(&\1, \2)",
                          "`v.iter().map(f).collect()` -> mirrored `iter_map_collect(&v, f)` (assumed std meaning: element-wise image, "
                          "same length and order; the closure text is unchanged)"),
+    "drop_contracts_ensures": (r"(?m)^\s*#\[ensures\([^\n]*\)\]\n", "",
+                               "`#[contracts::ensures(..)]` run-time postcondition attributes dropped (debug-build assertions of the "
+                               "`contracts` crate; the same facts are part of the Verus contract)"),
     "phantom_fn": (r"PhantomData<fn\(\) -> (\w+)>", r"PhantomData<\1>",
                    "`PhantomData<fn() -> P>` -> `PhantomData<P>` (variance marker only; Verus has no fn-pointer types)"),
     "temp_guard_rotate": (r"(?m)^(\s*)state\.populations_mut\(\)\.rotate\(self\.n\);", r"\1let mut verif_tmp = state.populations_mut(); verif_tmp.rotate(self.n);",
